@@ -198,6 +198,39 @@ def run(tier, seed, replay=None):
             except Exception:               # noqa: BLE001
                 exp = None
             cases.append((same, tgt, pat, exp))
+        # history cases: ONE long-lived pattern variable whose bound is replaced IN PLACE between two unifications (the
+        # generator and the declarations' deep copies re-bound type parameters like that); the second answer is compared
+        # with the model on the variable as it is now
+        grounds = [t for t in L.builtin_terms(prims=False) if not L.info[t[1]]["bottom"]]
+        for _ in range(4):
+            b1, b2 = rng.choice(grounds), rng.choice(grounds)
+            if b1 == b2:
+                continue
+            tgt = rng.choice([b1, b1, T.gen_ground(rng, L, tab, grounds, 0)])
+            try:
+                v = tp.TypeParameter("X76", tp.Invariant, b.obj(b1))
+                to = b.obj(tgt)
+                outer = None
+                if rng.random() < 0.5:
+                    outer = tp.TypeParameter("X77", tp.Invariant, v)      # X77 : X76 : b1, re-bounding X76 further up the chain
+                pv = outer if outer is not None else v
+                for same0 in (False, True):
+                    tu.unify_types(to, pv, factory, same_type=same0)
+                pv.get_bound_rec(factory)
+                v.bound = b.obj(b2)
+                res = tu.unify_types(to, pv, factory, same_type=False)
+                exp = [(T.reify(L, k), None if v_ is None else T.reify(L, v_)) for k, v_ in res.items()]
+            except Exception:               # noqa: BLE001
+                continue
+            pat = ("V", 76, 0, b2) if outer is None else ("V", 77, 0, ("V", 76, 0, b2))
+            hist["rebound"] = hist.get("rebound", 0) + 1
+            total += 1
+            if res:
+                nonempty += 1
+            why = judge(L, tu, tp, to, pv, res, False)
+            if why:
+                problems.append((len(groups), len(cases), why, False))
+            cases.append((False, tgt, pat, exp))
         alias = [(cid, T.ARRAY_CID) for cid, con in L.gen_cons.items() if cid >= T.EXTRA_CID and con.name == "Array"]
         groups.append((lang, tab, alias, L.any_bid, cases))
 
